@@ -721,12 +721,17 @@ impl<K: ExpiredKey<E>, E: Expiration, V: Copy> KeyExpTree<K, E, V> {
         (e.key, e.val)
     }
 
-    /// Independent copy of the whole tree (`into_ordered_vec` consumes `self`).
+    /// Independent copy of the whole tree (`into_ordered_vec` consumes `self`); keeps the
+    /// capacities of the arena and of the free list (the free list's capacity is the growth step).
     pub fn verif_clone(&self) -> Self {
+        let mut buffer = Vec::with_capacity(self.store.buffer.capacity());
+        buffer.extend_from_slice(&self.store.buffer);
+        let mut unused = Vec::with_capacity(self.store.unused.capacity());
+        unused.extend_from_slice(&self.store.unused);
         Self {
             store: Pool {
-                buffer: self.store.buffer.clone(),
-                unused: self.store.unused.clone(),
+                buffer,
+                unused,
             },
             root: self.root,
             phantom_data: Default::default(),
